@@ -429,6 +429,58 @@ C08Scope ==
   \cup UNION {UNION {{C08Prog(t, sl, root) : sl \in {x \in C08SegLists(t) : Len(x) = 1}} :
                       root \in Roots \ {<<>>}} : t \in {<<cA, cB>>, <<cA, NL, cB>>}}
 
+-----------------------------------------------------------------------------
+(* combined source maps (C09)                                               *)
+InnerName == <<105, 46, 106, 115>>         \* i.js
+InnerX == <<120, 121, cSC, NL, 122>>       \* "xy;\nz"
+NameAA == <<cA, cA>>
+
+C09OuterOrigs ==
+  {<<-1, 0, 0, -1>>, <<0, 1, 0, -1>>, <<0, 1, 1, 0>>, <<0, 2, 0, -1>>,
+   <<1, 1, 0, -1>>, <<0, 1, 2, 1>>}
+C09InnerOrigs == {<<-1, 0, 0, -1>>, <<0, 1, 0, -1>>, <<1, 1, 1, -1>>, <<0, 2, 1, 0>>}
+
+SegListsOver(t, n, O) ==
+  LET pt == PosTable(t)
+      subsets == {I \in SUBSET (1..Len(t)) : Cardinality(I) <= n}
+  IN UNION {
+       LET is == SetToSortSeq(I, <)
+       IN {[j \in 1..Len(is) |-> Seg(pt[is[j]][1], pt[is[j]][2], f[j])] :
+             f \in [1..Len(is) -> O]}
+       : I \in subsets}
+
+C09Sms(t, osegs, isegs, withOsrc, remove) ==
+  [k |-> "sms", b |-> t, name |-> InnerName,
+   map |-> [m |-> EncodeSegs(osegs), sources |-> <<InnerName, FileA>>,
+            contents |-> IF withOsrc THEN <<<<>>, ContentA>> ELSE <<InnerX, ContentA>>,
+            names |-> <<NameAA, Name1>>, root |-> <<>>, file |-> <<>>, dbg |-> <<>>],
+   inner |-> <<[m |-> EncodeSegs(isegs), sources |-> <<FileA, FileB>>,
+               contents |-> <<ContentA, ContentB>>, names |-> <<Name0>>,
+               root |-> <<>>, file |-> <<>>, dbg |-> <<>>]>>,
+   osrc |-> IF withOsrc THEN <<InnerX>> ELSE <<>>,
+   remove |-> remove]
+
+C09Prog(x) ==
+  Prog(<<Build(x), Obs("source"), MapStep(TRUE), MapStep(FALSE),
+         Stream(TRUE, FALSE), Stream(FALSE, FALSE)>>)
+
+C09T1 == <<cA, cB>>
+C09T2 == <<cA, cSP, cB, NL, cA, cB>>
+
+C09OO ==
+  IF Scope = "c09full" THEN C09OuterOrigs
+  ELSE {<<-1, 0, 0, -1>>, <<0, 1, 1, 0>>, <<0, 2, 0, -1>>, <<1, 1, 0, -1>>}
+
+C09Scope ==
+  IF Scope \notin {"c09", "c09full"} THEN {} ELSE
+  {C09Prog(C09Sms(C09T1, o, i, TRUE, FALSE)) :
+     o \in SegListsOver(C09T1, 2, C09OO), i \in SegListsOver(InnerX, 2, C09InnerOrigs)}
+  \cup {C09Prog(C09Sms(C09T2, o, i, TRUE, FALSE)) :
+          o \in SegListsOver(C09T2, 2, C09OO), i \in SegListsOver(InnerX, 1, C09InnerOrigs)}
+  \cup {C09Prog(C09Sms(C09T2, o, i, w, rm)) :
+          o \in SegListsOver(C09T2, 1, C09OuterOrigs), i \in SegListsOver(InnerX, 1, C09InnerOrigs),
+          w \in BOOLEAN, rm \in BOOLEAN}
+
 (* size of buffer() is not known to the generator; writers are placed at    *)
 (* every budget up to a bound that covers these small trees                 *)
 ProgSet ==
@@ -438,6 +490,7 @@ ProgSet ==
     [] Scope = "c06" -> C06Scope
     [] Scope = "c06r" -> C06RScope
     [] Scope = "c08" -> C08Scope
+    [] Scope \in {"c09", "c09full"} -> C09Scope
     [] Scope = "c07" -> {Prog(<<Build(t)>> \o ViewObs(9)) : t \in ViewTrees}
     [] OTHER -> {}
 
